@@ -535,14 +535,15 @@ def extractParams (g : Group) (o : Opts) (name : Str) : Except Err (List Param) 
       match o.get "window_function".toList, o.get "window_size".toList, o.get "time_unit".toList with
       | .none, _, _ | _, .none, _ | _, _, .none => .error (.value "no-window-params")
       | f, n, u =>
-        match pyStr f, pyStr u with
+        -- the raw option values are returned (only a str window size is converted with int())
+        let raw : PV → Option Param := fun v => match v with | .str s => some (.s s) | .int i => some (.n i) | _ => none
+        match raw f, raw u with
         | some f', some u' =>
           match n with
-          | .int i => .ok [.s f', .n i, .s u']
-          | .bool b => .ok [.s f', .n (if b then 1 else 0), .s u']
-          | .str s => if isAllDigits s then .ok [.s f', .n (Nat.ofDigitChars 10 s 0), .s u'] else .error (.unmodelled "int(str)")
+          | .int i => .ok [f', .n i, u']
+          | .str s => if isAllDigits s then .ok [f', .n (Nat.ofDigitChars 10 s 0), u'] else .error (.unmodelled "int(str)")
           | _ => .error (.unmodelled "window-size-type")
-        | _, _ => .error (.unmodelled "str()")
+        | _, _ => .error (.unmodelled "raw-option-type")
   else if g.name == "GeoDistanceFeatureGroup".toList then
     -- `_extract_distance_unit` / `get_distance_type`
     typeFromNameOrOption g o name "_distance" "DISTANCE_TYPES" "distance_type"
@@ -680,16 +681,21 @@ def resolveFeat : Nat → PV → Option Chain
 /-- resolution of a chained *name* -/
 def parseAll (fuel : Nat) (name : Str) : Option Chain := resolveFeat fuel (mkFeat name)
 
-/-- group option keys of a parent are merged into the options of its input features unless protected
-(`FeatureCollection.merge_options` / `Options.update_with_protected_keys` with the default protected key
-`in_features`); a differing value for an unprotected key is a `ValueError`, a group key already in the child's context too -/
+/-- what the engine does to every input feature of a consumer (`Features.build_feature_collection` →
+`FeatureCollection.merge_options` → `Options.update_with_protected_keys`, default protected key `in_features`):
+* any unprotected key present on both sides (group *or* context) with different values is a `ValueError`;
+* the consumer's unprotected *group* keys are copied into the input's group options, a `ValueError` if one of them
+  is a context key of the input. -/
 def propagateGroup (parent : Opts) (child : PV) : Except Err PV :=
   match child with
   | .feat n g c =>
-    let inh := parent.group.filter (fun kv => kv.1 != inFeaturesKey)
-    if inh.any (fun kv => match lookup kv.1 g with | some v => !(v.eqv kv.2) | none => false) then .error (.value "duplicate-key-conflict")
-    else if inh.any (fun kv => (lookup kv.1 c).isSome) then .error (.value "group-context-conflict")
-    else .ok (.feat n (g ++ inh.filter (fun kv => (lookup kv.1 g).isNone)) c)
+    let pitems := (parent.group ++ parent.ctx).filter (fun kv => kv.1 != inFeaturesKey)
+    let citems := g ++ c
+    if pitems.any (fun kv => citems.any (fun kv' => kv'.1 == kv.1 && !(kv'.2.eqv kv.2))) then .error (.value "duplicate-key-conflict")
+    else
+      let inh := parent.group.filter (fun kv => kv.1 != inFeaturesKey)
+      if inh.any (fun kv => (lookup kv.1 c).isSome) then .error (.value "group-context-conflict")
+      else .ok (.feat n (g ++ inh.filter (fun kv => (lookup kv.1 g).isNone)) c)
   | v => .ok v
 
 /-- like `resolveFeat` but with the engine's propagation of the parent's *group* options into every input feature -/
